@@ -150,7 +150,41 @@ LTR_FAMS = ["latn", "cyrl", "grek", "deva", "kana"]
 RTL_FAMS = ["arab", "hebr"]
 
 
+def gen_chain(rng):
+    """several scripts tied into one bucket only through a CHAIN of mixed-script classes ((s1,s2), (s2,s3), (s3,s4) ...) given in
+    random order: mergeScripts needs more than one sweep to find the fixed point"""
+    fams = rng.sample(["latn", "cyrl", "grek", "deva", "kana"], rng.choice([3, 4, 4, 5]))
+    glyphs = [list(g) for f in fams for g in rng.sample(POOL[f], min(2, len(POOL[f])))]
+    glyphs += [list(g) for g in rng.sample(POOL["punct"], 2)]
+    mine_ = {f: [g[0] for g in glyphs if g in [list(x) for x in POOL[f]]] for f in fams}
+    # link k = {first glyph of script k, second glyph of script k+1}: no glyph is in two classes (valid UFO groups)
+    links = [[mine_[fams[k]][0], mine_[fams[k + 1]][1]] for k in range(len(fams) - 1)]
+    rng.shuffle(links)
+    groups = [["public.kern1.c%d" % k, l] for k, l in enumerate(links)]
+    punct = [g[0] for g in glyphs if g in [list(x) for x in POOL["punct"]]]
+    vals = [-10, -20, 15, 7, 12.5, -7.5, 33, -50]
+    kerning = [[g[0], rng.choice(punct), rng.choice(vals)] for g in groups]
+    # every script also has kerning of its own (so that it is registered whatever happens to the mixed classes)
+    for f in fams:
+        mine = [g[0] for g in glyphs if g in [list(x) for x in POOL[f]]]
+        kerning.append([mine[0], mine[-1], rng.choice(vals)])
+    own = [g[0] for g in glyphs]
+    for _ in range(rng.choice([2, 4, 6])):
+        a, b = rng.choice(own), rng.choice(own)
+        if not any(k[0] == a and k[1] == b for k in kerning):
+            kerning.append([a, b, rng.choice(vals)])
+    rng.shuffle(kerning)
+    return {"glyphs": glyphs, "alts": [], "groups": groups, "kerning": kerning, "langsys": [], "gdef": False, "marks": [],
+            "q": rng.choice([1, 1, 5]), "ignoreMarks": True, "lib": rng.choice(["ufoLib2", "defcon"]), "markWidth": 0}
+
+
 def gen(rng, n, mode):
+    for _ in range(max(20, n // 6)):
+        yield gen_chain(rng)
+    yield from _gen(rng, n, mode)
+
+
+def _gen(rng, n, mode):
     """stream 1 (unchanged): `n` mixed-script fonts for the model/UFO-semantics check; then stream 2: single-direction fonts
     (only left-to-right scripts, or only right-to-left ones, plus neutral glyphs) compiled with both shipped kern writers."""
     yield from gen1(rng, n, mode)
